@@ -76,9 +76,11 @@ class LoopSpec:
     modifies: extra havoc targets: ('heap', obj, field) / ('ghost', name) / ('var', name); assigned local
     variables of the body are havocked automatically."""
 
-    def __init__(self, fingerprint, inv, modifies=(), ghost_start=None, ghost_end=None, no_end=False):
+    def __init__(self, fingerprint, inv, modifies=(), ghost_start=None, ghost_end=None, no_end=False, every_element=False):
+        """every_element: the loop's contract is per element (region contract): leaving the loop early (break / return from
+        inside the body) would leave elements unprocessed - an obligation that fails on such a path"""
         self.fingerprint, self.inv, self.modifies = fingerprint, inv, list(modifies)
-        self.ghost_start, self.ghost_end, self.no_end = ghost_start, ghost_end, no_end
+        self.ghost_start, self.ghost_end, self.no_end, self.every_element = ghost_start, ghost_end, no_end, every_element
 
 
 class FnSpec:
@@ -295,7 +297,11 @@ class Ex:
         s.add(extra)
         if s.check() == z3.unsat:
             return False
-        if len(qf) == len(self.pc):
+        if len(qf) == len(self.pc) or not getattr(self.spec, "feasibility_with_quantifiers", False):
+            # The quantified part is NOT consulted in-process by default: a resource-limited check over the quantified
+            # axioms crashed the solver library (SIGSEGV inside Z3_solver_check_assumptions, twice, deterministically for
+            # a given term order) - and an in-process crash takes the whole check down.  Keeping a path that only the
+            # quantified axioms could rule out is sound: its obligations are then discharged (vacuously) in a worker.
             return True
         s = z3.Solver()
         s.set("rlimit", self.spec.feas_rlimit)
@@ -711,7 +717,13 @@ class Ex:
             except _Continue:
                 pass
             except _Break:
+                if ls.every_element:
+                    self.oblige(f"loop{ordn}.every-element[the loop is not left before its last element: nothing of the batch is skipped]", False, kind="frame", site=ls.fingerprint or "")
                 return  # continues after the loop, skipping orelse
+            except _Return:
+                if ls.every_element:
+                    self.oblige(f"loop{ordn}.every-element[the loop is not left before its last element: nothing of the batch is skipped]", False, kind="frame", site=ls.fingerprint or "")
+                raise
             if ls.ghost_end:
                 ls.ghost_end(self, seen if mode == "set" else k, lst.ety.wrap(x) if mode == "set" else el)
             self.cover(f"loop{ordn}.end")
